@@ -103,6 +103,9 @@ class Gen:
             buf = rng.choice([1, 1, 2, 3])
         elif profile == "should":
             should = rng.choice([1, 2])
+        elif profile == "shouldttl":
+            should = rng.choice([1, 2])
+            ttl_p = 0.8
         elif profile == "ttl":
             ttl_p = 0.8
         elif profile == "internal":
@@ -132,7 +135,10 @@ class Gen:
                 ttl = 0
                 if rng.random() < ttl_p:
                     ttl = rng.choice([1, 10 ** 9, 3 * 10 ** 9, 7 * 10 ** 9 + 5, 60 * 10 ** 9, -5])
-                ops.append(["set", k, c, self.fresh(), rng.randrange(lo, hi + 1), ttl])
+                cost = rng.randrange(lo, hi + 1)
+                if ignore and rng.random() < 0.07:
+                    cost = 0          # an effective cost of exactly 0 (no internal cost, Config.Cost returns 0)
+                ops.append(["set", k, c, self.fresh(), cost, ttl])
                 pending_sets += 1
             elif r < 0.50:
                 ops.append(["get", k, c])
@@ -182,7 +188,7 @@ class Gen:
                     tags=["profile:" + profile])
 
 
-PROFILES = ["basic", "basic", "roomy", "tinybuf", "should", "ttl", "ttl", "internal", "collide"]
+PROFILES = ["basic", "basic", "roomy", "tinybuf", "should", "ttl", "ttl", "internal", "collide", "shouldttl"]
 
 
 def gen_cases(rng, n, ctx, profiles=None, prefix="c"):
